@@ -300,6 +300,29 @@ macro_rules! pow_for {
                         (None, None) => {}
                         (got, want) => sink.fail("C01/pow/wrong_value", format!("checked_pow<{},{}>({b}, {e} units) = {got:?}, exact {want:?}", stringify!($T), $D), json!({"fn": "pow", "T": stringify!($T), "D": $D, "base": b.to_string(), "exp_units": e})),
                     }
+                    // large whole-number exponents (only for bases >= 2.0, where both sides decide within 128 multiplications):
+                    // the exponent must not be narrowed on the way
+                    if e == 4 && b128 >= 2 * UNIT {
+                        for big in [5u128, 63, 64, 127, 128, (1 << 32) - 1, 1 << 32, (1 << 32) + 1, (1 << 32) + 3, 1 << 33, (1 << 40) + 2, MAX / UNIT] {
+                            if big > MAX / UNIT {
+                                continue;
+                            }
+                            let mut acc: Option<u128> = Some(UNIT);
+                            for _ in 0..big.min(200) {
+                                acc = acc.and_then(|a| match md_floor(a, b128, UNIT) {
+                                    Some(Ex::V(v)) if v <= MAX => Some(v),
+                                    _ => None,
+                                });
+                            }
+                            let r = Fixed::<$T, $D>::from_inner(b).checked_pow(&Fixed::from_inner((big * UNIT) as $T)).map(|f| f.into_inner());
+                            sink.case(r.is_some());
+                            match (r, acc) {
+                                (Some(v), Some(w)) if v as u128 == w && big <= 200 => {}
+                                (None, None) => {}
+                                (got, want) => sink.fail("C01/pow/wrong_value", format!("checked_pow<{},{}>({b}, {big} units) = {got:?}, exact {want:?}", stringify!($T), $D), json!({"fn": "pow", "T": stringify!($T), "D": $D, "base": b.to_string(), "exp_units": big.to_string()})),
+                            }
+                        }
+                    }
                     for &f128 in factors {
                         let f = f128 as $T;
                         let r = utils::apply_factors::<$T, $D>(b, f, exp).ok();
